@@ -187,8 +187,11 @@ PROPS = {
                 explanation='clean on block documents around one unwrap-block element with k = 0..6 lines between its tags (indentation and line text '
                             'symbolic, blank inner lines, nested ready / pending default elements): for k >= 2 the surviving non-blank lines are exactly '
                             'the input minus tag lines and wrapper lines; for k < 2 the output is byte-identical.'),
-    'C06': dict(jobs=props_pipe.c06_jobs, tv=('front', 'pipe'), assumptions=PIPE_ASSUME + [
-                    'the command-line clause (no target option => empty set; clap defaults) is decided under C20, not here'],
+    'C06': dict(jobs=lambda tier, seed: props_pipe.c06_jobs(tier, seed) + [j for j in props_cli.c20_jobs(tier, seed) if 'target' in j['label'] or 'config file' in j['label']],
+                cli=True, tv=('front', 'pipe'),
+                covers_optional={t: ('output-is-input-file', 'output-to-file', 'list-mode', 'list-json-mode', 'input-from-file', 'input-from-stdin', 'something-removed') for t in ('quick', 'thorough')},
+                assumptions=PIPE_ASSUME + [
+                    'the command-line clause (no target option => empty set; clap defaults; config file lines and repeated flags) is decided by the C20 harness on the target-related option sets, with the stubs listed under C20'],
                 explanation='clean on one-element probes: the target set (0..3 strings of <= 3 symbolic bytes, incl. the empty string) and the `name` value are '
                             'symbolic, ready <=> byte-for-byte membership (prefix / superstring / case variants are inside the same query); valueless or missing '
                             'name; `skip` as a bare attribute at every position among <= 3 attributes with symbolic separators, ready child still removed; '
